@@ -409,6 +409,7 @@ func describeCfg(c *admissionapi.PodSecurityConfiguration) cfgOut {
 
 func runC17(c *Ctx) {
 	runC17Setup(c)
+	defer c17Layouts(c)
 	n := sizes(c, 4000, 80000)
 	r := NewRng(c.Seed)
 	var ops []J
